@@ -51,3 +51,19 @@ Definition eps0_check (k : lp_case) : bool :=
   && list_eqb Qeq_bool (r_solution r0) (r_solution r1) && Qeq_bool (r_objective r0) (r_objective r1).
 
 Definition tol7 : Q := 1 # 10000000.
+
+(* robustness of a case against the value of eps: the exact run takes the same decisions for eps = 0, 1e-10
+   and 1e-7, i.e. no compared quantity of the exact tableau lies strictly between 0 and 1e-7 at a place where it
+   matters.  Only on such cases is the exact model the reference for what the float code should do; the others
+   are skipped (and counted) by the correspondence lemma - the independent oracle still judges their verdict. *)
+Definition eps_wide : Q := 1 # 10000000.
+
+Definition same_run (r0 r1 : lp_result) : bool :=
+  status_eqb (r_status r0) (r_status r1) && pivots_eqb (r_pivots r0) (r_pivots r1)
+  && Nat.eqb (r_iterations r0) (r_iterations r1).
+
+Definition robust_check (k : lp_case) : bool :=
+  same_run (run_case eps_wide k) (run_case eps_default k) && same_run (run_case 0 k) (run_case eps_default k).
+
+Definition corr_robust_check (eps tol : Q) (k : lp_case) : bool :=
+  if robust_check k then corr_check eps tol k else true.
